@@ -359,7 +359,10 @@ M("C04", "explode-annotated-not-recursive", GRM, "                elif is_generi
 M("C04", "twin-frontier-known-form", INI, "        if ctx.depth <= self.max_depth:", "        if self.max_depth >= ctx.depth:", "", expect="silent")
 
 # ------------------------------------------------------------------------------------- C05
-M("C05", "register-type-drops-annotated", GRM, "        elif is_annotated(ty):\n            gty = get_generic_parameter(ty)\n            self.register_type(gty)\n            return\n        elif is_generic(ty):", "        elif is_generic(ty):", "C05.R1")
+# Annotated[T, m] has __origin__ and __args__ == (T,), so without its own branch it is handled by the is_generic branch with
+# the same effect: an equivalent mutant (the typing-runtime model of the interpreter sees that; the former syntactic rule did not)
+M("C05", "twin-register-type-annotated-via-generic", GRM, "        elif is_annotated(ty):\n            gty = get_generic_parameter(ty)\n            self.register_type(gty)\n            return\n        elif is_generic(ty):", "        elif is_generic(ty):", "", expect="silent")
+M("C05", "register-type-drops-generic", GRM, "        elif is_generic(ty):\n            for p in get_generic_parameters(ty):\n                self.register_type(p)\n            return\n", "", "C05.R1")
 M("C05", "collect-types-list-not-recursive", GRM, "        if is_generic_list(ty):\n            gty = get_generic_parameter(ty)\n            yield from self.collect_types(gty)", "        if is_generic_list(ty):\n            gty = get_generic_parameter(ty)\n            yield gty", "C05.R1")
 M("C05", "distance-annotated-multistrip", GRM, "            ta = get_generic_parameter(ty)\n            return self.get_distance_to_terminal(ta)\n        elif is_generic_list(ty):", "            return self.get_distance_to_terminal(strip_annotations(ty))\n        elif is_generic_list(ty):", "C05.R1")
 M("C05", "abstract-distance-max", GRM, "                            val = min(\n                                val,\n                                int(self.expansion_depthing) + self.distanceToTerminal[prod],\n                            )", "                            val = max(\n                                val if val < INF_VALUE else 0,\n                                int(self.expansion_depthing) + self.distanceToTerminal[prod],\n                            )", "C05.R2")
